@@ -170,10 +170,32 @@ theorem applyCaps_props (t : String) (ord : Int) : ∀ (cs : List (Nat × Rat)) 
         refine ⟨a1, ?_, by rw [a3, applyAdj_ords]⟩
         rw [a2, applyAdj_eff (-net) lots h]; simp only [effCaps]; grind
 
+theorem scaleLot_off (r : Rat) (l : Lot) : (scaleLot r l).off = l.off := by
+  unfold scaleLot; split <;> rfl
+theorem scaleLot_ord (r : Rat) (l : Lot) : (scaleLot r l).ord = l.ord := by
+  unfold scaleLot; split <;> rfl
+theorem scaleLot_held (r : Rat) (l : Lot) (hr : r ≠ 0) : (scaleLot r l).held = l.held * r := by
+  unfold scaleLot; simp only [hr, if_false, Lot.held]; grind
+
+/-- restating the share counts keeps every lot's offset and date, and (for a positive factor) the
+    invariant that no lot is over-consumed -/
+theorem scale_props (r : Rat) (hr : 0 < r) (lots : List Lot) (h : LotsInv lots) :
+    LotsInv (lots.map (scaleLot r)) ∧ (lots.map (scaleLot r)).map (·.off) = lots.map (·.off)
+      ∧ lotOrds (lots.map (scaleLot r)) = lotOrds lots := by
+  have hne : r ≠ 0 := by grind
+  refine ⟨?_, ?_, ?_⟩
+  · intro l hl
+    simp only [List.mem_map] at hl
+    obtain ⟨l0, hl0, rfl⟩ := hl
+    rw [scaleLot_held r l0 hne]
+    exact Rat.mul_nonneg (h l0 hl0) (Rat.le_of_lt hr)
+  · rw [List.map_map]; apply List.map_congr_left; intro l _; exact scaleLot_off r l
+  · unfold lotOrds; rw [List.map_map]; apply List.map_congr_left; intro l _; exact scaleLot_ord r l
+
 def buyOrd (d : Day) : List Int := match d.buy with | some _ => [d.ord] | none => []
 
 theorem prepassDay_props (t : String) (lots lots' : List Lot) (d : Day) (h : LotsInv lots) (hB : 0 ≤ d.B)
-    (hp : prepassDay t lots d = .ok lots') :
+    (hr : 0 < d.r) (hp : prepassDay t lots d = .ok lots') :
     LotsInv lots' ∧ offSum lots' = offSum lots + effDay lots d ∧ lotOrds lots' = lotOrds lots ++ buyOrd d := by
   unfold prepassDay at hp
   have hfold : (d.accs.foldl (fun ls v => if ls.isEmpty then ls else applyAdj v ls) lots) = d.accs.foldl accStep lots := rfl
@@ -188,7 +210,10 @@ theorem prepassDay_props (t : String) (lots lots' : List Lot) (d : Day) (h : Lot
     | none =>
       rw [hb] at hp
       simp only at hp
-      obtain ⟨c1, c2, c3⟩ := sellsFold_props d.ord d.sells lots1 b1
+      obtain ⟨c1', c2', c3'⟩ := sellsFold_props d.ord d.sells lots1 b1
+      obtain ⟨c1, s2, s3⟩ := scale_props d.r hr _ c1'
+      have c2 := s2.trans c2'
+      have c3 := s3.trans c3'
       subst hp
       refine ⟨c1, ?_, ?_⟩
       · unfold offSum at *; rw [c2, b2, a2]; unfold effDay; grind
@@ -204,7 +229,10 @@ theorem prepassDay_props (t : String) (lots lots' : List Lot) (d : Day) (h : Lot
         · simp only [Lot.held]
           have : d.B = b.q := by simp [Day.B, hb]
           rw [this] at hB; grind
-      obtain ⟨c1, c2, c3⟩ := sellsFold_props d.ord d.sells _ hinv
+      obtain ⟨c1', c2', c3'⟩ := sellsFold_props d.ord d.sells _ hinv
+      obtain ⟨c1, s2, s3⟩ := scale_props d.r hr _ c1'
+      have c2 := s2.trans c2'
+      have c3 := s3.trans c3'
       subst hp
       refine ⟨c1, ?_, ?_⟩
       · unfold offSum at *
@@ -230,7 +258,7 @@ theorem prepass_props (t : String) : ∀ (ds : List Day) (lots lots' : List Lot)
     split at hp
     · cases hp
     · rename_i lots1 hd
-      obtain ⟨a1, a2, a3⟩ := prepassDay_props t lots lots1 d h hok.1.2.2 hd
+      obtain ⟨a1, a2, a3⟩ := prepassDay_props t lots lots1 d h hok.1.2.2 hok.1.1 hd
       obtain ⟨b1, b2, b3⟩ := ih lots1 lots' a1 hok.2 hp
       refine ⟨b1, ?_, ?_⟩
       · rw [b2, a2]; simp only [effAll, hd]; grind
